@@ -8,12 +8,6 @@
         final(self).linear_constraints == old(self).linear_constraints, final(self).domain == old(self).domain, final(self).bounds == old(self).bounds,
         r matches Some(c) ==> old(self).constraints@ == seq![c] + final(self).constraints@,
         r is None ==> old(self).constraints@.len() == 0 && final(self).constraints@ == old(self).constraints@,
-//@ ASSUMED (logic lowering is not among the proved arms): asserting a logic expression true / false makes the context demand exactly that
-@fn lower_logic_assertion @assumed -> res
-    requires exp_fin(*exp), lz_inv(*old(linearizer_context)),
-    ensures
-        lz_inv(*final(linearizer_context)), lz_ext(*old(linearizer_context), *final(linearizer_context)),
-        res is Ok ==> forall|env: Env| #[trigger] lz_ok(*final(linearizer_context), env) ==> (sem(*exp, env) matches Some(v) ==> truthy(v) == must_be_true),
 //@ ASSUMED: the normal form of a comparison between a logic value and a constant says the same as the comparison
 @fn try_normalize_logic_constraint @assumed -> r
     ensures
